@@ -21,7 +21,7 @@ from mc import explore, vclock
 from checks import _guardloop as G
 
 R = 10  # recovery timeout, seconds
-DELTAS = (4, 6, 10, 15)  # sums reach below R (4,6,8), exactly R (10 = 4+6) and above R
+DELTAS = (4, 6, 9.999999, 10, 15)  # sums reach below R (4, 6, 8, R-1us), exactly R (10 and 4+6) and above R
 CLASSES = {
     "ok": ("EXECUTE", "PERMIT"),
     "ablock": ("EXECUTE", "BLOCK"),
@@ -61,7 +61,7 @@ class Model:
         self.tier = tier
 
     def roots(self):
-        ths = (1, 2, 3) if self.tier == "quick" else (1, 2, 3, 4)
+        ths = (1, 2, 3, 4) if self.tier == "quick" else (1, 2, 3, 4, 5)
         return [[th, br, ca] for th in ths for br in (True, False) for ca in (True, False)]
 
     def build(self, root):
@@ -332,7 +332,7 @@ def run_real(model, name):
 
 def run(ctx):
     model = Model(ctx.tier)
-    depth = 40
+    depth = 40  # the search reaches its fixpoint at depth ~10: the result then holds for histories of any length
     res = explore.explore(model, ctx, depth)
 
     real_steps = 0
